@@ -51,7 +51,7 @@ def budget(tier):
 
 
 def strategy(tier):
-    return st.builds(lambda g, f, cache, order: {"g": g, "f": f, "cache": cache, "order": order}, st.one_of(graphs.graph_descs(), graphs.graph_descs(), graphs.graph_descs(), graphs.eq_graph_descs()), graphs.filter_specs_objs, st.booleans(), st.integers(0, 5))
+    return st.builds(lambda g, f, cache, order: {"g": g, "f": f, "cache": cache, "order": order}, st.one_of(graphs.graph_descs(), graphs.graph_descs(classes=9, wide=True), graphs.graph_descs(classes=9, wide=True, min_v=2, min_e=2), graphs.eq_graph_descs()), graphs.filter_specs_objs, st.booleans(), st.integers(0, 5))
 
 
 _TABLE_FILTERS = [None, {"ft": "pair", "mask": 0xFFFF}, {"ft": "pair", "mask": 0}, {"ft": "pair", "mask": 0, "falsy": True}, {"ft": "edge", "mask": 0b01, "falsy": True}] + [
@@ -98,6 +98,16 @@ def check_case(case):
 def _check_case(case):
     vs, ls = graphs.build(case["g"])
     info = _check_world(case, vs, ls)
+    if not case["g"].get("eq") and ls and case.get("order", 0) % 2:
+        # a link end is re-assigned after the first evaluation: the table must follow the new graph
+        k = case["order"] % len(ls)
+        tgt = vs[(case["order"] // 2) % len(vs)]
+        if case["order"] % 4 == 1:
+            ls[k].v2 = tgt
+        else:
+            ls[k].v1 = tgt
+        _check_world(case, vs, ls)
+        info["classes"].append("re-checked-after-end-reassignment")
     if not case["g"].get("eq"):
         # the same table on a COPY of the world made after it was queried (deepcopy / pickle / nrpickler):
         # "for every graph" includes graphs that came out of a pickle
